@@ -83,8 +83,14 @@ def main():
 def finish(meta, src, name):
     out = os.path.join(HERE, "seeded", name)
     os.makedirs(out, exist_ok=True)
+    old = {}
+    if os.path.exists(os.path.join(out, "meta.json")):
+        old = json.load(open(os.path.join(out, "meta.json")))
+    if "tests" not in meta and "tests" in old:  # a re-evaluation of the checks keeps the recorded test-suite result
+        meta["tests"], meta["tests_pass"] = old["tests"], old.get("tests_pass")
+        meta["ran"] += [r for r in old.get("ran", []) if "pytest" in r]
     for f in ("patch.diff", "demo.py", "notes.md"):
-        if os.path.exists(os.path.join(src, f)):
+        if os.path.exists(os.path.join(src, f)) and os.path.realpath(src) != os.path.realpath(out):
             shutil.copy(os.path.join(src, f), os.path.join(out, f))
     notes = os.path.join(src, "notes.md")
     if os.path.exists(notes):
